@@ -8,7 +8,7 @@ import time
 import traceback
 
 JOBS = int(os.environ.get('VERIF_JOBS', '16'))
-CONTRACT_MODULES = ['contracts.dict_operations', 'contracts.point', 'contracts.expression']
+CONTRACT_MODULES = ['contracts.dict_operations', 'contracts.point', 'contracts.expression', 'contracts.evals']
 
 
 def load_contracts():
@@ -78,7 +78,10 @@ def describe(v):
             if hasattr(k, 'counter'):
                 return '%s%s' % (type(k).__name__[0], k.counter)
             return repr(k)
-        return '%s(leaf=%s, %s)' % (type(v).__name__, v._is_leaf, {kn(k): c for k, c in d.items()})
+        return '%s(leaf=%s, %s, value=%s)' % (type(v).__name__, v._is_leaf, {kn(k): c for k, c in d.items()},
+                                              'None' if v._value is None else 'set')
+    if hasattr(v, 'equality_or_inequality') and hasattr(v, 'expression'):
+        return 'Constraint(%s, %s, value=%r, dual=%r)' % (describe(v.expression), v.equality_or_inequality, v._value, v._dual_variable_value)
     if isinstance(v, dict):
         return repr({describe(k) if not isinstance(k, (int, float, tuple)) else repr(k): x for k, x in v.items()})[:300]
     return repr(v)[:200]
